@@ -181,6 +181,7 @@ def step (s : DState) (toks : List String) : DState × String :=
     if s.conns.contains id && ["cds", "eds", "rds", "sds"].contains ty then (s, "ok") else bad s
   | ["change", _, _] => if s.world then (s, "ok") else bad s
   | ["push", id] => if s.conns.contains id then (s, "ok") else bad s
+  | ["warm", id] => if s.conns.contains id then (s, "ok") else bad s
   | ["dump", id] => if s.conns.contains id then (s, "ok") else bad s
   | ["check", id] => if s.conns.contains id then (s, "eq") else bad s
   | "case" :: _ => (DState.init, "bad-op")
